@@ -4,10 +4,10 @@ TECH = "CBMC 6.11 code contracts (goto-instrument --dfcc) and full-domain lemma 
 
 PROPS = {
     "C01": {
-        "families": ["vector", "ivector"],
-        "level": "every public operation of static_vector<int,N> / inplace_vector<int,N> / stack is proved, from an ARBITRARY well-formed object (induction over histories), to produce the whole std::vector view (size, every element, returned iterator) for N in {1,4} (thorough: 0,7; size-type boundary 255/256); loops are bounded by the capacity and fully unwound with unwinding assertions",
+        "families": ["vector", "ivector", "lifetime", "algob"],
+        "level": "(int elements: vector/ivector; a move-marking, self-move-hostile element through the non-trivial storage path: lifetime h_* groups, algob hm_erase; arguments that alias an element of the vector: alias_value / h_alias) every public operation of static_vector<int,N> / inplace_vector<int,N> / stack is proved, from an ARBITRARY well-formed object (induction over histories), to produce the whole std::vector view (size, every element, returned iterator) for N in {1,4} (thorough: 0,7; size-type boundary 255/256); loops are bounded by the capacity and fully unwound with unwinding assertions",
         "note": "capacities and element types are enumerated, not quantified; trusted: clang-14 front end, cxx2c lowering (validated per run by layout asserts, co-execution and native replay), CBMC + SAT back end, hand-written reference semantics",
-        "not_covered": ["capacities other than the enumerated ones", "element types other than int (non-trivial element lifetimes are C03's family 'lifetime')", "emplace_back return value: tetl returns void"],
+        "not_covered": ["capacities other than the enumerated ones", "element types other than int and the instrumented types of the lifetime family", "emplace_back return value: tetl returns void"],
         "design_ref": "DESIGN.md 7 C01",
     },
     "C02": {
@@ -39,15 +39,15 @@ PROPS = {
         "design_ref": "DESIGN.md 7 C05",
     },
     "C06": {
-        "families": ["algo", "algob"],
-        "level": "single-loop algorithms: function contracts with loop invariants on the REAL tetl functions, enforced by goto-instrument --dfcc for ranges of any length (ghost length / ghost index); nested-loop and permutation-shaped algorithms: bounded stand-ins over full-int alphabets (reported under bounded, never as proved)",
+        "families": ["algo", "algob", "lifetime"],
+        "level": "(int ranges with bool predicates under contract; in the bounded family additionally a move-marking element type whose self-move-assignment is destructive and predicates / comparators returning non-bool truthy values) single-loop algorithms: function contracts with loop invariants on the REAL tetl functions, enforced by goto-instrument --dfcc for ranges of any length (ghost length / ghost index); nested-loop and permutation-shaped algorithms: bounded stand-ins over full-int alphabets (reported under bounded, never as proved)",
         "note": "pointer iterators over int (and a key/tag struct for stability); predicates/comparators are lowered functors",
         "not_covered": ["iterator categories other than those listed", "algorithms listed as bounded are not proved for unbounded lengths"],
         "design_ref": "DESIGN.md 7 C06",
     },
     "C07": {
-        "families": ["sumtypes"],
-        "level": "optional/variant/expected: every modifier and observer is proved over ALL (from-state, to-state) pairs (both objects fully symbolic) against the std state tables; loop-free after instantiation, full machine domain",
+        "families": ["sumtypes", "lifetime"],
+        "level": "(incl. variants with a repeated alternative type, optional<bool>, self-referential arguments; value assignment with non-trivial alternatives in the lifetime family) optional/variant/expected: every modifier and observer is proved over ALL (from-state, to-state) pairs (both objects fully symbolic) against the std state tables; loop-free after instantiation, full machine domain",
         "note": "trivially destructible alternatives (non-trivial lifetimes are C03); type-level facts (explicitness, value categories, return-type decay) are outside the technique",
         "not_covered": ["type-level facts (overload-set ambiguity for narrowing conversions, value category passed to monadic callbacks, decay of visit's return type, explicit default constructor of expected)", "APIs tetl does not provide (optional::value/transform, expected comparisons/transform, variant member swap)"],
         "design_ref": "DESIGN.md 7 C07",
@@ -55,7 +55,7 @@ PROPS = {
     "C08": {
         "families": ["sv"],
         "level": "single-loop character searches: contracts with loop invariants for views of any length; multi-character needles and the remaining overloads: bounded in haystack/needle length with fully symbolic characters, pos and count (size, size+1, npos inside the domain); views are exact-size, non-terminated objects",
-        "note": "char (wide types only where listed)",
+        "note": "char; wchar_t for the forwarding overloads of the six searches and compare in the quick tier (variant wq), wchar_t/char16_t for the remaining wide-capable groups in thorough; views into the same buffer for the affix/compare family",
         "not_covered": ["needle lengths beyond the stated bound for the bounded groups"],
         "design_ref": "DESIGN.md 7 C08",
     },
